@@ -114,12 +114,13 @@ FIELDS = {
     'C05': {'params.count', 'params.ok', 'params.value', 'errs', 'ret', 'malformed-unit-no-command-error', 'overrun-executed'},
     'C06': {'out', 'flush'},
     'C08': {'pending', 'chunking-dependence'},
+    'ISO': {'carry-over'},
 }
 FIELDS['C17'] = FIELDS['C06'] | {'errs'}
-FIELDS['C09'] = FIELDS['C02'] | FIELDS['C05'] | FIELDS['C06'] | FIELDS['C08']
-FIELDS['ALL'] = FIELDS['C09']
+FIELDS['C09'] = FIELDS['ISO']
+FIELDS['ALL'] = FIELDS['C02'] | FIELDS['C05'] | FIELDS['C06'] | FIELDS['C08']
 
-def validate(rep, pid, scen, obs, label, info=1, refs=None, fields=None, kindfn=None, chunk=15000):
+def validate(rep, pid, scen, obs, label, info=1, refs=None, fields=None, kindfn=None, chunk=15000, iso=0):
     """TVParser over (scenario, observation) pairs. Returns number of mismatching scenarios relevant to pid."""
     w = lib.workdir('tv' + pid + label)
     recs = []
@@ -127,7 +128,7 @@ def validate(rep, pid, scen, obs, label, info=1, refs=None, fields=None, kindfn=
         if ob is None:
             continue
         r = dict(table=sc['table'], scripts=sc['scripts'], buf=sc['buf'], mode=sc.get('mode', 'I'), chunks=sc['chunks'],
-                 obs=ob, info=info, ref=(refs[i] if refs else []))
+                 obs=ob, info=info, ref=(refs[i]['calls'] if refs and refs[i] else []), iso=iso)
         recs.append(r)
     fields = fields or FIELDS[pid]
     chunks = [recs[i:i + chunk] for i in range(0, len(recs), chunk)]
